@@ -38,6 +38,9 @@ const FOOTER_SIZE: usize = 64;
 /// SIMD optimization threshold (minimum size for SIMD benefits)
 const SIMD_THRESHOLD: usize = 64;
 
+/// Chunk size for reading the content section in `load_from_reader`
+const CONTENT_READ_CHUNK: usize = 1 << 20;
+
 /// Configuration for ZipOffsetBlobStore
 #[derive(Debug, Clone)]
 #[cfg_attr(feature = "serde", derive(Serialize, Deserialize))]
@@ -397,27 +400,36 @@ impl ZipOffsetBlobStore {
 
         let mut store = Self::with_config(config)?;
 
-        // Read content data with SIMD optimization for large content
-        store.content.reserve(header.content_bytes as usize)?;
-        let mut content_bytes = vec![0u8; header.content_bytes as usize];
-        reader.read_exact(&mut content_bytes)?;
-        
-        // Use SIMD-optimized extend for large content
-        if store.should_use_simd(content_bytes.len()) {
-            // Pre-allocate and use SIMD copy
-            let current_len = store.content.len();
-            store.content.resize(current_len + content_bytes.len(), 0)?;
-            {
+        // Read content data with SIMD optimization for large content.
+        // `content_bytes` is an unvalidated header field, so it must not size an allocation
+        // up front: read in bounded chunks and let the store grow with the bytes the reader
+        // actually delivers (a truncated or corrupt file ends in an I/O error).
+        let content_len = usize::try_from(header.content_bytes)
+            .ok()
+            .filter(|&n| n <= isize::MAX as usize)
+            .ok_or_else(|| ZiporaError::invalid_data("content size in header is too large"))?;
+        let mut chunk_buf = vec![0u8; content_len.min(CONTENT_READ_CHUNK)];
+        let mut remaining = content_len;
+        while remaining > 0 {
+            let chunk_len = remaining.min(chunk_buf.len());
+            let content_bytes = &mut chunk_buf[..chunk_len];
+            reader.read_exact(content_bytes)?;
+
+            // Use SIMD-optimized extend for large content
+            if store.should_use_simd(content_bytes.len()) {
+                // Grow and use SIMD copy
+                let current_len = store.content.len();
+                store.content.resize(current_len + content_bytes.len(), 0)?;
                 let content_slice = &mut store.content.as_mut_slice()[current_len..];
-                if let Err(_) = fast_copy(&content_bytes, content_slice) {
+                if let Err(_) = fast_copy(content_bytes, content_slice) {
                     // Fallback to standard extend on error
-                    drop(content_slice); // Explicitly drop the mutable reference
                     store.content.resize(current_len, 0)?;
-                    store.content.extend(content_bytes.into_iter())?;
+                    store.content.extend(content_bytes.iter().copied())?;
                 }
+            } else {
+                store.content.extend(content_bytes.iter().copied())?;
             }
-        } else {
-            store.content.extend(content_bytes.into_iter())?;
+            remaining -= chunk_len;
         }
 
         // Skip padding to 16-byte alignment
